@@ -425,6 +425,31 @@ pub fn run(cx: &mut Cx) {
         }
     }
 
+    // (b6) digits and separators only: every string of at most four tokens
+    // over 0 1 2 7 . _ (doubled, leading, trailing separators; empty and zero
+    // components), ordered pairs sampled by hash
+    if cx.tier != crate::fw::Tier::Mini {
+        let all = gv::digits_and_separators(4);
+        let keep = cx.pick_tier(1u64, 64, 12, 2);
+        for (bi, b) in all.iter().enumerate() {
+            if !cx.mine(bi as u64) {
+                continue;
+            }
+            for a in &all {
+                if crate::rng::hash_strs(&[a.as_bytes(), b"|", b.as_bytes()]) % keep != 0 {
+                    continue;
+                }
+                cx.check(
+                    || format!("digits and separators A={a:?} B={b:?}"),
+                    |ev| {
+                        ev.count("workload/digits-and-separators");
+                        check_pair(ev, &mut cache, &star, a, b)
+                    },
+                );
+            }
+        }
+    }
+
     // (c) corpus: real comparison patterns x real versions.
     if cx.tier != crate::fw::Tier::Mini {
         let pats = corpus::patterns();
